@@ -1,4 +1,4 @@
-(* C05, JSON writing direction: conforms T S SM TR = true -> every value that is well formed w.r.t. the
+(* C05, JSON writing direction: conforms T S SM TR XN = true -> every value that is well formed w.r.t. the
    specification-side table is encoded by the interpreted writer rules into a document the schema validator accepts
    (with members outside the schema rejected or not: for both settings of [closed]). *)
 From Coq Require Import List Bool String NArith Lia.
@@ -172,13 +172,14 @@ Variable T : tables.
 Variable S : jschema.
 Variable SM : smeta.
 Variable TR : list triple.
+Variable XN : table.
 Variable lt : string -> bool.
 Variable closed : bool.
-Hypothesis Hconf : conforms T S SM TR = true.
+Hypothesis Hconf : conforms T S SM TR XN = true.
 Notation EA := (enc_auto T lt false).
 Notation JV := (jvalid pm S closed).
 
-Lemma triple_in t : tmem3 t TR = true -> triple_ok T S SM TR t = true.
+Lemma triple_in t : tmem3 t TR = true -> triple_ok T S SM TR XN t = true.
 Proof.
   intros H. unfold tmem3 in H. apply existsb_exists in H. destruct H as [t' [Hin E]].
   assert (t = t').
@@ -189,7 +190,7 @@ Proof.
 Qed.
 
 Definition PW (v : value) : Prop :=
-  forall k ne0 e t, swf pm SM k v = true -> tyconf T S TR k ne0 e t = true ->
+  forall k ne0 e t, swf pm SM k v = true -> tyconf T S TR XN k ne0 e t = true ->
                     (ne0 = true -> v <> VList []) -> JV t (enc_with EA e v) = true.
 
 Lemma obj_valid cls ctx scls fs classes :
@@ -283,7 +284,7 @@ Proof.
     + destruct e, t; try discriminate; cbn in *; eapply fimpl_sound; eauto.
     + destruct e, t; try discriminate. cbn in Hty, Hwf |- *.
       apply smem_In in Hwf. rewrite forallb_forall in Hty. specialize (Hty _ Hwf).
-      destruct (sfind s t0) as [j|]; [|discriminate]. exact Hty.
+      destruct (sfind s t0) as [j|]; [|discriminate]. apply andb_prop in Hty. exact (proj1 Hty).
   - destruct k; try discriminate. destruct e, t; try discriminate. reflexivity.
   - destruct k; try discriminate. destruct e, t; try discriminate. cbn in *. eapply fimpl_sound; eauto.
   - (* lists *)
@@ -294,7 +295,7 @@ Proof.
       { intros m1 H. destruct m1; [|reflexivity]. cbn in H |- *. apply orb_prop in H. destruct H as [H|H].
         - subst mn. exact Hmn.
         - specialize (Hne H). destruct l; [congruence|reflexivity]. }
-      assert (Helem : forall it, tyconf T S TR k' false EAuto it = true -> forallb (fun x => JV it (EA x)) l = true).
+      assert (Helem : forall it, tyconf T S TR XN k' false EAuto it = true -> forallb (fun x => JV it (EA x)) l = true).
       { intros it Hit. apply forallb_forall. intros x Hx. rewrite Forall_forall in IH. rewrite forallb_forall in Hall.
         apply (IH x Hx k' false EAuto it (Hall _ Hx) Hit). discriminate. }
       destruct e; try discriminate.
